@@ -553,8 +553,14 @@ func drive(ch *Check, tier string, workers int, record bool, seed int64) int {
 	ev["wall_s"] = time.Since(start).Seconds()
 	ev["violations"] = len(fresh)
 	b, _ := json.MarshalIndent(ev, "", " ")
-	os.MkdirAll(filepath.Join(VerifDir, "evidence"), 0o755)
-	if err := os.WriteFile(filepath.Join(VerifDir, "evidence", ch.ID+".json"), b, 0o644); err != nil {
+	// a run against a planted or seeded change (check --mutant) is a self-test of
+	// the machinery, not evidence about /repo: its record goes under work/
+	evDir := filepath.Join(VerifDir, "evidence")
+	if os.Getenv("VERIF_PLANTED") != "" {
+		evDir = filepath.Join(VerifDir, "work", "evidence-planted")
+	}
+	os.MkdirAll(evDir, 0o755)
+	if err := os.WriteFile(filepath.Join(evDir, ch.ID+".json"), b, 0o644); err != nil {
 		fmt.Println("HARNESS-ERROR", err)
 		return 2
 	}
